@@ -757,6 +757,8 @@ def edit_phase(M, root, tseed, rng, coll, P, state):
         return [n for n in root.walk() if n.table]
 
     for _ in range(rng.randint(1, 4)):
+        if not live_tables():  # a non-table root whose tables were all erased
+            break
         T = rng.choice(live_tables())
         body = T.regions[0]
         gone = removed.get(id(T), set())
@@ -837,8 +839,10 @@ def edit_phase(M, root, tseed, rng, coll, P, state):
             if kind == "insert-replace":
                 name = rng.choice([c.name for c in body if c.symbol])
             else:
-                free = [x for x in P.pool + ["n0", "n1"] if x not in taken_attr
-                        and not any(c.symbol and c.name == x for c in body)]
+                taken = taken_attr | {c.name for c in body if c.symbol}
+                free = [x for x in P.pool + ["n0", "n1"] if x not in taken]
+                if not free:
+                    free = [next(f"n{j}" for j in range(2, len(body) + 4) if f"n{j}" not in taken)]
                 name = rng.choice(free)
             new = gen_symbol_subtree(rng, P, name)
             build(E, new)
@@ -1019,7 +1023,7 @@ def one_tree(M, tseed, with_edits=True):
 # ------------------------------------------------------------------------------------------ plan / work / finish
 def plan(tier, seed):
     shards = 32 if tier == "quick" else 64
-    per = 120 if tier == "quick" else 3200
+    per = 64 if tier == "quick" else 2400
     if os.environ.get("XV_PYPATH") and os.environ.get("XV_C29_PER"):  # mutant self-tests on a loaded machine only
         per = int(os.environ["XV_C29_PER"])
     return [{"kind": "trees", "base": (seed * 4096 + s) * 1_000_000, "count": per} for s in range(shards)]
@@ -1047,7 +1051,7 @@ def finish(agg, tier):
         if c.get(key, 0) < n:
             inc.append(f"{key} = {c.get(key, 0)} < {n}")
 
-    need("trees_verified", 1500 * scale)
+    need("trees_verified", 1000 * scale)
     if c.get("gen_invalid", 0) * 50 > c.get("trees_generated", 1):
         inc.append(f"generator produced {c.get('gen_invalid', 0)} unverifiable trees of {c.get('trees_generated', 0)}")
     for api in ("SymbolTable.lookup_nearest_symbol_from", "SymbolTableCollection.lookup_nearest_symbol_from",
@@ -1068,7 +1072,7 @@ def finish(agg, tier):
     need("refs:second-collection-reversed", 3000 * scale)
     need("refs:warm-collection-shuffled", 3000 * scale)
     need("table_depth:3", 100 * scale)
-    need("nontrivial_trees", 300 * scale)
+    need("nontrivial_trees", 200 * scale)
     for k in ("symbol_table._lookup_symbol_ref_in", "symbol_table._lookup_symbol_in_direct_children",
               "SymbolTable.lookup_symbol_in", "SymbolTable.lookup_nearest_symbol_from", "SymbolTable.__init__",
               "SymbolTable.lookup", "SymbolTable.remove", "SymbolTable.erase",
